@@ -40,7 +40,7 @@ def all_slice_specs(v):
 def row_operation_width(ck, F, rule, fn, floor=3):
     b = F.body(fn)
     # private helpers of the module (e.g. an extracted "subtract a multiple of the pivot row") are expanded at their call sites
-    t = Tracer(F, r"ndarray::impl_methods::<impl ndarray::ArrayBase<S, D>>::(swap|slice_mut|multi_slice_mut)", mode="int",
+    t = Tracer(F, r"ndarray::impl_methods::<impl ndarray::ArrayBase<S, D>>::(swap|slice_mut|multi_slice_mut|slice)", mode="int",
                inline=lambda p: F.bodies.get(p) if p and p.startswith("linalg::") and p != fn else None)
     env = {}
     t.bind(b.params[0], var("array"), env)
@@ -105,6 +105,22 @@ def row_operation_width(ck, F, rule, fn, floor=3):
         ck.inst(rule, "%s:row-op#%d:%s" % (fn.rsplit("::", 1)[-1], n, kind), ok and lo_ok, e.site,
                 "%s over columns %r..%r ; required pivot column .. number of columns (whole remaining row)" % (
                     kind, inner[2] if inner else None, inner[3] if inner else None))
+    # Pivot search: the read-only view in which the non-zero element is looked for is a *column* - rows from the pivot row on, one column
+    # (s![r.., c]); a row view (s![r, c..]) searches along the pivot row instead of below it
+    ns_ = 0
+    for e in t.events:
+        if e.callee.endswith("::slice"):
+            for sp_ in all_slice_specs(e.args[1]):
+                if len(sp_) != 2:
+                    continue
+                rng_first = isinstance(sp_[0], tuple) and sp_[0] and sp_[0][0] == "struct"
+                rng_second = isinstance(sp_[1], tuple) and sp_[1] and sp_[1][0] == "struct"
+                if rng_first == rng_second:
+                    continue        # a block view, not a line
+                ns_ += 1
+                col_view = rng_first and str(sp_[0][1]) == "RangeFrom"
+                ck.inst(rule, "%s:pivot-search-view#%d" % (fn.rsplit("::", 1)[-1], ns_), col_view, e.site,
+                        "the search view is s![%s, %s] ; required s![pivot row.., column]" % ("range" if rng_first else "index", "range" if rng_second else "index"))
     # Pivot range: when the pivots are walked by a counted loop, it covers every pivot 0..nrows (a loop that stops early leaves the last
     # pivot unchecked: a singular matrix is accepted)
     NROWS_ = app("proj0", app(DIM, var("array")))
